@@ -326,32 +326,50 @@ impl Fdt {
         priority: u32,
         now: SystemTime,
     ) -> Option<Arc<FileDesc>> {
-        let (index, _) = self
-            .files_transfer_queue
-            .iter()
-            .enumerate()
-            .find(|(_, item)| item.should_transfer_now(priority, self.publish_mode, now))?;
-
-        let file = self.files_transfer_queue.remove(index).unwrap();
-        log::info!(
-            "Start transmission of {} toi={}",
-            file.object.content_location.as_str(),
-            file.toi
-        );
-
-        let evt = observer::Event::StartTransfer(observer::FileInfo { toi: file.toi });
-        self.observers.dispatch(&evt, now);
-
-        file.transfer_started(now);
-
-        match self.publish_mode {
-            FDTPublishMode::ObjectsBeingTransferred => {
-                self.publish(now).ok();
+        let mut index = 0;
+        while index < self.files_transfer_queue.len() {
+            if !self.files_transfer_queue[index].should_transfer_now(
+                priority,
+                self.publish_mode,
+                now,
+            ) {
+                index += 1;
+                continue;
             }
-            FDTPublishMode::FullFDT => {}
+
+            let file = self.files_transfer_queue.remove(index).unwrap();
+            let state = file.transfer_state();
+            file.transfer_started(now);
+
+            if let FDTPublishMode::ObjectsBeingTransferred = self.publish_mode {
+                if let Err(e) = self.publish(now) {
+                    // An object is never sent without an FDT announcing it: keep it in the
+                    // queue, the publication is tried again later
+                    log::error!(
+                        "Fail to publish the FDT announcing toi={}, transfer postponed: {:?}",
+                        file.toi,
+                        e
+                    );
+                    file.transfer_cancelled(state);
+                    self.files_transfer_queue.insert(index, file);
+                    index += 1;
+                    continue;
+                }
+            }
+
+            log::info!(
+                "Start transmission of {} toi={}",
+                file.object.content_location.as_str(),
+                file.toi
+            );
+
+            let evt = observer::Event::StartTransfer(observer::FileInfo { toi: file.toi });
+            self.observers.dispatch(&evt, now);
+
+            return Some(file);
         }
 
-        Some(file.clone())
+        None
     }
 
     pub fn transfer_done(&mut self, file: Arc<FileDesc>, now: SystemTime) {
